@@ -22,6 +22,13 @@ def ops_CLOSURES():
 F_float_str = z3.Function("str_of_float", TAbs("Float").z3(), z3.StringSort())
 
 
+class VStarList(Val):
+    "*xs where xs is a symbolic list: only meaningful to callees that model it (itertools.chain)"
+
+    def __init__(self, v):
+        self.v = v
+
+
 class CallMixin:
     # ------------------------------------------------------------ call expression
     def ev_Call(self, e, st, cx):
@@ -91,7 +98,15 @@ class CallMixin:
                 handled = True
                 for s2, args in self.ev_list(e.args, s, cx):
                     nb, rv = self.mutate(b, e.func.attr, args, s2, cx)
-                    outs.extend((s3, rv) for s3 in self.assign_target(e.func.value, nb, s2, cx))
+                    for s3 in self.assign_target(e.func.value, nb, s2, cx):
+                        # reference semantics for the one aliasing pattern that is modelled: a local bound directly to a
+                        # container-valued attribute (x = obj.f; x.append(..)) also updates obj.f
+                        if isinstance(e.func.value, ast.Name):
+                            al = s3.env.get("__alias__" + e.func.value.id)
+                            if al is not None:
+                                s3 = s3.copy()
+                                self.write_field(s3, al.what[0], al.what[1], nb)
+                        outs.append((s3, rv))
             elif handled:
                 raise Unsupported("mixed mutator receiver")
         return outs if handled else None
@@ -100,7 +115,7 @@ class CallMixin:
         if m == "append":
             if isinstance(b, VTuple):
                 return VTuple(b.items + [args[0]], True), VNone()
-            return list_append(b, args[0]), VNone()
+            return list_append(b, self.narrow(st, args[0], b.sort.elem)), VNone()
         if m == "extend":
             return self.concat(b, args[0] if not isinstance(args[0], VIter) else VTuple(args[0].items), st), VNone()
         if m == "add" and isinstance(b, VSet):
@@ -169,6 +184,11 @@ class CallMixin:
             raise Unsupported("no contract for %s" % qn)
         if f.kind == "external" and qn in ("copy.copy", "copy"):
             return self.copy_copy(args[0], st, cx)
+        if f.kind == "external" and qn == "itertools.chain":
+            from .sym_builtin import VChain
+            if len(args) == 1 and isinstance(args[0], VStarList):
+                return [(st, VChain(args[0].v))]
+            raise Unsupported("itertools.chain of explicit iterables")
         if f.kind == "external":
             raise Unsupported("call of external %s without an assumed contract" % qn)
         if f.kind == "repo":
@@ -616,6 +636,10 @@ class CallMixin:
                 self.assume_wf(st, res, nullable=True)
         env2 = dict(env)
         env2["result"] = res
+        for k_, so_ in (c.local_sorts or {}).items():  # callee-internal finals: existentially quantified witnesses
+            w = fresh(so_, "wit_" + k_)
+            self.assume_wf(st, w, nullable=True)
+            env2["final_" + k_] = w
         for lab, ex in c.ensures:
             st.pc.append(truth(self.eval_spec(ex, st, env2, pre, c.module)))
             if self.paranoid and not self.feasible(st):
